@@ -133,6 +133,42 @@ class Ctx:
         sys.stdout.write(out[-3000:])
         raise ToolError('TLC failed on %s (rc=%s)' % (module, rc))
 
+    def model_control(self, module, cfg, subdir='impl', workers=4, timeout=300):
+        """Vacuity control: a configuration of an implementation-shaped model with a design switch set to the pinned /
+        a wrong design MUST violate an invariant; if TLC finds nothing the model cannot tell the designs apart."""
+        cfgp = os.path.join(VERIF, 'spec', subdir, cfg + '.cfg')
+        wd = os.path.join(self.out, 'mc-' + cfg)
+        rc, out, wall = tlc.run_tlc(os.path.join(subdir, module), cfgp, wd, workers=workers, timeout=timeout, xmx='4g')
+        open(os.path.join(wd, 'tlc.out'), 'w').write(out)
+        m = re.search(r'Error: Invariant (\S+) is violated', out)
+        self.mc_runs.append({'module': module, 'cfg': cfg, 'wall_s': round(wall, 1), 'purpose': 'control that must fail',
+                             'violated': m.group(1) if m else None})
+        if not m:
+            raise ToolError('control %s of %s did not fail: the model does not tell the designs apart' % (cfg, module))
+        return m.group(1)
+
+    def simulate_paths(self, module, cfg, num, depth, subdir='impl', timeout=300):
+        """Sample behaviours of a model with TLC's simulation mode; the model prints each finished behaviour as
+        <<"GEN", ToJson(path)>>.  Returns the list of decoded paths."""
+        import json as _json
+        cfgp = os.path.join(VERIF, 'spec', subdir, cfg + '.cfg')
+        wd = os.path.join(self.out, 'sim-' + cfg)
+        rc, out, wall = tlc.run_tlc(os.path.join(subdir, module), cfgp, wd, workers=1, timeout=timeout, xmx='4g',
+                                    extra=['-simulate', 'num=%d' % num, '-depth', str(depth), '-seed', str(self.seed + 1)])
+        open(os.path.join(wd, 'tlc.out'), 'w').write(out)
+        if 'is violated' in out:
+            path = self.save_violation({'kind': 'model', 'module': module, 'cfg': cfg, 'tlc_output_tail': out[-6000:]})
+            self.violations.append(('model invariant violated in %s (simulation)' % module, path))
+        paths = []
+        for m in re.finditer(r'<<\s*"GEN",\s*"(.*?)"\s*>>', out, re.S):
+            paths.append(_json.loads(m.group(1).replace('\\"', '"')))
+        self.mc_runs.append({'module': module, 'cfg': cfg, 'wall_s': round(wall, 1), 'purpose': 'behaviour sampling',
+                             'behaviours': len(paths)})
+        if not paths:
+            sys.stdout.write(out[-2000:])
+            raise ToolError('no behaviours sampled from %s' % module)
+        return paths
+
     # -- inductive invariants (Apalache) ---------------------------------
     def apalache_start(self, module, obligations, subdir='impl'):
         """Start Apalache on spec/<subdir>/<module>.tla for each (name, args, expect) in obligations — in the background,
